@@ -23,7 +23,9 @@ func (k msgServer) Cancel(goCtx context.Context, msg *types.MsgCancel) (*types.M
 	isCreator := false
 	if order.Creator == msg.Creator {
 		isCreator = true
-	} else {
+	} else if msg.Provider == order.Provider {
+		// the order was submitted by one of the gateway's own addresses: only the order's
+		// gateway may be claimed here, never a node of the sender's choosing
 		node, found := k.node.GetNode(ctx, msg.Provider)
 		if found {
 			for _, address := range node.TxAddresses {
